@@ -8,7 +8,7 @@ from . import setlib as S
 PROPERTY = "C07"
 DRIVER = "TraitsVerif/Driver/Set.lean"
 PROPS_MODULES = ["TraitsVerif.Props.C07"]
-TRANSLATORS = ["mutators", "pylmap", "pylobj", "ctorcopy"]
+TRANSLATORS = ["mutators", "pylmap", "pylobj", "ctorcopy", "ctorprog"]
 RULE = ("exhaustive single operations over the universe {0..3} (thorough: {0..4}): every set state x every operand "
         "subset x add/discard/remove/pop/clear/update/difference_update/intersection_update/"
         "symmetric_difference_update/|=/&=/-=/^= with set and list operands, several iterables, generators; the "
